@@ -828,6 +828,40 @@ def model_outcome(line):
     return {"ok T": True, "ok F": False}.get(line, line)
 
 
+HISTORY_KINDS = ("empty", "notempty", "truthy", "falsy", "inst", "none", "notnone", "eq", "ne", "haskey", "tupleof", "listof", "dictof", "setof")
+
+
+def spoil(v, depth=0):
+    """Change a yielded container in place so that its emptiness / truthiness / contents flip (the caller owns it)."""
+    if depth > 3:
+        return
+    try:
+        if isinstance(v, list):
+            for e in list(v):
+                spoil(e, depth + 1)
+            if v:
+                v.clear()
+            else:
+                v.append("spoiled")
+        elif isinstance(v, dict):
+            for e in list(v.values()):
+                spoil(e, depth + 1)
+            if v:
+                v.clear()
+            else:
+                v["spoiled"] = 1
+        elif isinstance(v, set):
+            if v:
+                v.clear()
+            else:
+                v.add("spoiled")
+        elif isinstance(v, tuple):
+            for e in v:
+                spoil(e, depth + 1)
+    except Exception:  # noqa: BLE001
+        pass
+
+
 def safety_check(pid, mode, tier):
     from .core import Check
 
@@ -925,9 +959,36 @@ def safety_check(pid, mode, tier):
                     chk.add_failure({"mode": mode, "spec": repr(s), "predicate": show_spec(s), "seed": chk.seed * 1000 + k, "position": i},
                                     {"what": f"generate_{'true' if want else 'false'} yielded a value on which the predicate does not return {want}", "value": repr(v)[:300], "predicate_returned": out},
                                     explain_safety(mode, s, r))
+    # ---- history: the values a stream yields belong to the caller.  Draw from both generators of a spec, change every
+    # yielded container in place (empty ones get an item, non-empty ones are emptied; nested ones too), then open a NEW
+    # stream: its values must still satisfy / violate the predicate (a sample object shared between streams shows here)
+    hist_specs = [s_ for s_ in specs if s_[0] in HISTORY_KINDS or s_[0] in ("all", "any", "setof", "or", "and")]
+    if quick:
+        hist_specs = hist_specs[:: max(1, len(hist_specs) // 160)]
+    hist_judged = 0
+    for s_ in hist_specs:
+        p_ = build(s_)
+        first = []
+        for m_ in ("T", "F"):
+            if m_ == "F" and not false_supported(s_):
+                continue
+            first += pull_impl(m_, p_, 14, EVENTS, seed=chk.seed * 1000 + 7)[0]
+        for v in first:
+            spoil(v)
+        items, st, _, _ = pull_impl(mode, build(s_), 14, EVENTS, seed=chk.seed * 1000 + 7)
+        for i, v in enumerate(items):
+            r = call(p_, v)
+            hist_judged += 1
+            if r is not want:
+                out = r if isinstance(r, str) else repr(r)
+                chk.add_failure({"mode": mode, "spec": repr(s_), "predicate": show_spec(s_), "seed": chk.seed * 1000 + 7, "position": i,
+                                 "history": "generate_true and generate_false of the same predicate were read first and every container they yielded was changed in place by the caller"},
+                                {"what": f"after the caller changed values yielded by earlier streams, a new generate_{'true' if want else 'false'} stream yielded a value on which the predicate does not return {want}", "value": repr(v)[:300], "predicate_returned": out},
+                                explain_safety(mode, s_, r))
+    chk.extra["history_streams"] = {"specs": len(hist_specs), "values_judged": hist_judged}
     for d in (dis + edis)[:20]:
         chk.add_failure(d["input"], {"what": "model and implementation disagree: " + str(d.get("what", "evalG")), **{k: v for k, v in d.items() if k not in ("input", "what")}}, None)
-    chk.evaluations = judged + searched
+    chk.evaluations = judged + searched + hist_judged
     chk.extra.update(specs=len(specs), specs_skipped_because_optimize_raises=sorted(set(SKIPPED)), cases=len(cases), prefix_length=n, status_counts=status_count, kinds=kinds, values_judged_on_tapes=judged,
                      values_judged_with_real_seeds=searched, max_line_events_per_successful_next=max_events, fuel=FUEL, events_budget=EVENTS,
                      int_bounds=[str(x) for x in INT_BOUNDS], float_bounds=FLOAT_BOUNDS)
@@ -959,7 +1020,16 @@ def safety_replay(path, mode):
     spec = eval(inp["spec"], {"datetime": _dt, "UUID": uuid.UUID})  # noqa: S307  specs are reprs of plain tuples written by this harness
     p = build(spec)
     want = mode == "T"
-    if "tape_rle" in inp:
+    if "history" in inp:
+        first = []
+        for m_ in ("T", "F"):
+            if m_ == "F" and not false_supported(spec):
+                continue
+            first += pull_impl(m_, p, 14, EVENTS, seed=inp["seed"])[0]
+        for v in first:
+            spoil(v)
+        items, st, log, _ = pull_impl(mode, build(spec), 14, EVENTS, seed=inp["seed"])
+    elif "tape_rle" in inp:
         items, st, log, _ = pull_impl(mode, p, inp.get("n", 30), EVENTS, raws=unrle(inp["tape_rle"]))
     else:
         items, st, log, _ = pull_impl(mode, p, inp.get("position", 0) + 1, EVENTS, seed=inp["seed"])
